@@ -55,6 +55,12 @@ type crasher struct {
 	hot    atomic.Int64
 	mu     sync.Mutex
 	images []*crashImage
+	// asynchronous checking (see kick)
+	checking bool
+	stop     bool
+	idle     chan struct{}
+	checkErr error
+	stats    map[string]int
 	taken  int
 	off    atomic.Bool
 	// stats
@@ -128,6 +134,7 @@ func (c *crasher) inject(op errorfs.Op) error {
 	// crash points too: the DB state does not depend on them.
 	i := c.n.Add(1) - 1
 	cls := fileClass(op.Path)
+	c.r.Ev.trace("fs#%d step=%d %v %s", i, c.r.stepA.Load(), op.Kind, op.Path)
 	take := false
 	if c.cp.Stride > 0 && int(i)%c.cp.Stride == c.cp.Offset%c.cp.Stride {
 		take = true
@@ -312,32 +319,127 @@ func describeDiff(got *State, cands []*State) string {
 	return b.String()
 }
 
-// checkImages opens every queued crash image and applies the recovery oracle.
-func (c *crasher) checkImages() error {
+// Queued crash images are checked by a worker goroutine while the foreground
+// goes on with the plan: checking them on the foreground would keep it away
+// from the DB for milliseconds at a time, during which background work (and
+// anything the schedule perturbation holds back) runs to completion
+// unobserved. kick starts the worker if needed; failed returns the first
+// verdict; finishChecks waits for the queue to drain and merges the counters.
+func (c *crasher) kick() {
 	c.mu.Lock()
-	imgs := c.images
-	c.images = nil
-	c.mu.Unlock()
-	for _, img := range imgs {
-		k, err := c.r.checkImage(img)
-		if err != nil {
-			return err
+	defer c.mu.Unlock()
+	if c.checking || len(c.images) == 0 || c.checkErr != nil {
+		return
+	}
+	c.checking = true
+	c.idle = make(chan struct{})
+	go c.worker(c.idle)
+}
+
+func (c *crasher) worker(done chan struct{}) {
+	defer close(done)
+	for {
+		c.mu.Lock()
+		imgs := c.images
+		c.images = nil
+		if len(imgs) == 0 || c.checkErr != nil {
+			c.checking = false
+			c.mu.Unlock()
+			return
 		}
-		c.r.C["crash-images"]++
-		if len(img.cands) > 1 {
-			c.r.C["crash-images-ambiguous"]++
-			if k > 0 && k < len(img.cands)-1 {
-				c.r.C["crash-recovered-strictly-inside"]++
+		c.mu.Unlock()
+		for _, img := range imgs {
+			c.mu.Lock()
+			stop := c.stop
+			c.mu.Unlock()
+			if stop {
+				break
 			}
-		}
-		if img.nAsked > 0 {
-			c.r.C["crash-images-with-unsynced-data"]++
-		}
-		if img.lo > 0 {
-			c.r.C["crash-images-after-durable-ack"]++
+			k, err := c.r.checkImage(img)
+			c.mu.Lock()
+			if err != nil {
+				if c.checkErr == nil {
+					c.checkErr = err
+				}
+				c.checking = false
+				c.mu.Unlock()
+				return
+			}
+			if c.stats == nil {
+				c.stats = map[string]int{}
+			}
+			c.stats["crash-images"]++
+			if len(img.cands) > 1 {
+				c.stats["crash-images-ambiguous"]++
+				if k > 0 && k < len(img.cands)-1 {
+					c.stats["crash-recovered-strictly-inside"]++
+				}
+			}
+			if img.nAsked > 0 {
+				c.stats["crash-images-with-unsynced-data"]++
+			}
+			if img.lo > 0 {
+				c.stats["crash-images-after-durable-ack"]++
+			}
+			c.mu.Unlock()
 		}
 	}
-	return nil
+}
+
+// abandon drops whatever is queued and waits for the worker to stop (the case
+// ends early: nothing may outlive it).
+func (c *crasher) abandon() {
+	c.mu.Lock()
+	c.stop = true
+	c.images = nil
+	ch, running := c.idle, c.checking
+	c.mu.Unlock()
+	if running {
+		<-ch
+	}
+}
+
+func (c *crasher) failed() error {
+	c.mu.Lock()
+	defer c.mu.Unlock()
+	return c.checkErr
+}
+
+// waitIdle waits for the worker to drain the queue (no-op when none runs).
+func (c *crasher) waitIdle() {
+	for {
+		c.mu.Lock()
+		ch, running, pending := c.idle, c.checking, len(c.images)
+		c.mu.Unlock()
+		if running {
+			<-ch
+			continue
+		}
+		if pending == 0 || c.failed() != nil {
+			return
+		}
+		c.kick()
+	}
+}
+
+// checkImages checks everything queued so far and merges the counters into the
+// runner's (foreground only).
+func (c *crasher) checkImages() error {
+	c.kick()
+	c.waitIdle()
+	c.mu.Lock()
+	defer c.mu.Unlock()
+	for k, v := range c.stats {
+		c.r.C[k] += v
+	}
+	c.stats = nil
+	return c.checkErr
+}
+
+func (c *crasher) queued() int {
+	c.mu.Lock()
+	defer c.mu.Unlock()
+	return len(c.images)
 }
 
 // checkImage reopens one crash image; returns the index of the matching candidate.
